@@ -270,8 +270,9 @@ def finish(prop, tier, seed, level, res, coverage, assumptions, t0, runner=None,
     cov['violation_keys'] = sorted(seen.keys())
     ev = {'property_id': prop, 'tier': tier, 'seed': int(seed), 'level': level, 'coverage': cov, 'assumptions': assumptions,
           'wall_s': round(time.time() - t0, 1), 'violations': len(unknown)}
-    os.makedirs(os.path.join(VERIF, 'evidence'), exist_ok=True)
-    json.dump(ev, open(os.path.join(VERIF, 'evidence', prop + '.json'), 'w'), indent=1, sort_keys=True)
+    evdir = os.environ.get('VERIF_EVIDENCE_DIR') or os.path.join(VERIF, 'evidence')     # the override is for seeded-change trials only
+    os.makedirs(evdir, exist_ok=True)
+    json.dump(ev, open(os.path.join(evdir, prop + '.json'), 'w'), indent=1, sort_keys=True)
     if runner:
         runner.cleanup()
     if unknown:
